@@ -81,6 +81,16 @@ Theorem C05_spread_adjoint_pair_numba :
     dotu R u (spread_rmatvec_numba R nx0 nt0 nx nt interp T D v).
 Proof. exact spread_adjoint_pair_numba. Qed.
 Print Assumptions C05_spread_adjoint_pair_numba.
+(* the same with the conjugate-linear inner product (complex data, real
+   interpolation weights): the gather is the ADJOINT of the scatter *)
+Theorem C05_spread_adjoint_pair_sesquilinear :
+  forall (K : StarRing) nx0 nt0 nx nt interp T (D : nat -> nat -> nat -> K),
+    (forall a b c, conj K (D a b c) = D a b c) -> forall u v,
+    wf_tab nx0 nt0 nx nt interp T -> length u = nx0 * nt0 -> length v = nx * nt ->
+    dot K (spread_matvec_numpy K nx0 nt0 nx nt interp T D u) v =
+    dot K u (spread_rmatvec_numpy K nx0 nt0 nx nt interp T D v).
+Proof. exact spread_adjoint_pair_dot. Qed.
+Print Assumptions C05_spread_adjoint_pair_sesquilinear.
 Theorem C05_spread_wf_checker_sound :
   forall nx0 nt0 nx nt interp T, wf_tabb nx0 nt0 nx nt interp T = true -> wf_tab nx0 nt0 nx nt interp T.
 Proof. exact wf_tabb_sound. Qed.
@@ -119,6 +129,8 @@ Example C05_spread_example_values :      (* vclose z0 = exact equality of ration
   close z0 (dotu QcR (spread_matvec_numpy QcR 2 2 2 3 true (tabT ex_tbl) (tabD QcR ex_dtbl) u) v) (qz 26) = true /\
   close z0 (dotu QcR u (spread_rmatvec_numba QcR 2 2 2 3 true (tabT ex_tbl) (tabD QcR ex_dtbl) v)) (qz 26) = true.
 Proof. vm_compute. repeat split; reflexivity. Qed.   (* expected values = output of pylops.Spread on this table, both engines *)
+Example C05_spread_example_real_weights : forall a b c, conj QcS (tabD QcS ex_dtbl a b c) = tabD QcS ex_dtbl a b c.
+Proof. intros; reflexivity. Qed.
 (* the well-formedness hypothesis of the adjoint pair is needed: an entry
    equal to nt is dropped by the forward model but read (from the next row of
    the flat buffer, like the numba kernel) by the adjoint. *)
